@@ -13,11 +13,33 @@ import (
 // verifier accepts it and its targets are exactly the positions of the block's
 // deleted leaves; otherwise it is discarded (ok=false).
 func (w *World) reencode(n *Node, b *Block) (dels []H, proof u.Proof, ok bool) {
-	if len(b.Dels) == 0 {
-		return nil, u.Proof{}, false
-	}
 	r := SubRng(b.Seed^uint64(n.idx+1)*0x7f4a7c15, "reenc")
 	L := b.Pre.Layout()
+	if len(b.Dels) == 0 {
+		// a block without deletions whose proof still carries (unused) hashes, and
+		// an empty non-nil deletion list: another accepted encoding of "nothing"
+		if !r.Pct(40) {
+			return nil, u.Proof{}, false
+		}
+		proof = u.Proof{Targets: []uint64{}}
+		for j := 0; j < 1+r.Intn(3); j++ {
+			var junk H
+			junk[0], junk[1], junk[2], junk[31] = 0xee, byte(j), byte(r.Next()), 0x5b
+			proof.Proof = append(proof.Proof, junk)
+		}
+		dels = []H{}
+		if r.Bool() {
+			dels, proof.Targets = nil, nil
+		}
+		stump := u.Stump{Roots: append([]H(nil), L.Roots...), NumLeaves: b.Pre.N}
+		if err, _ := guard(func() error { _, e := u.Verify(stump, dels, proof); return e }); err != nil {
+			w.stats.Reach["reenc_discarded"]++
+			return nil, u.Proof{}, false
+		}
+		w.stats.Faults["reencoded_nodels+junk"]++
+		w.logf("%s: relay re-encoded block %d proof (no deletions, %d unused hashes)", n.name, b.ID, len(proof.Proof))
+		return dels, proof, true
+	}
 	dels = append([]H(nil), b.Dels...)
 	proof = u.Proof{Targets: append([]uint64(nil), b.Proof.Targets...), Proof: append([]H(nil), b.Proof.Proof...)}
 	mode := r.Weighted(3, 3, 2, 2, 2)
